@@ -145,6 +145,9 @@ pub struct Filter {
     /// hold the n-th handshake message in the given direction (every copy) until `ms` after its first appearance
     pub hold: Option<(bool, usize, u64)>,
     pub hold_until: Option<u64>,
+    /// lose the first `n` copies of the nth handshake message in the given direction: (to_dev, nth, n)
+    pub drop_first: Option<(bool, usize, usize)>,
+    pub dropped: usize,
     /// distinct handshake messages seen per direction [to device, from device], by message counter
     pub msgs: [Vec<u32>; 2],
     pub answers_delivered: Vec<u32>,
@@ -468,6 +471,12 @@ pub fn run_scenario(sc: &Scenario<'_>, tr: &mut Trace) -> End {
                                 net.borrow_mut().wire.pop_front();
                                 return Step::Poll;
                             }
+                            if let Some((to_dev, n, k)) = f.drop_first {
+                                if to_dev == (d.src != 0) && n == nth && f.dropped < k {
+                                    f.dropped += 1;
+                                    return Step::Drop(0);
+                                }
+                            }
                             if let Some((to_dev, n, ms)) = f.hold {
                                 if to_dev == (d.src != 0) && n == nth {
                                     let until = *f.hold_until.get_or_insert(sim::now_ms() + ms);
@@ -575,6 +584,7 @@ pub fn run_scenario(sc: &Scenario<'_>, tr: &mut Trace) -> End {
                 let garble_at = op["garble"].as_array().filter(|g| g.len() >= 3).map(|g| (g[2].as_u64().unwrap() as usize, g.get(3).and_then(|m| m.as_u64()).unwrap_or(0x41) as u8));
                 let filter = Filter { cut: op["cut"].as_u64().map(|x| x as usize), garble, garble_at,
                                       hold: op["hold"].as_array().map(|g| (g[0].as_bool().unwrap(), g[1].as_u64().unwrap() as usize, g[2].as_u64().unwrap())), active: true,
+                                      drop_first: op["drop_first"].as_array().map(|g| (g[0].as_bool().unwrap(), g[1].as_u64().unwrap() as usize, g[2].as_u64().unwrap_or(1) as usize)),
                                       locked: op["locked"].as_bool().unwrap_or(false), bad_proof: !pass_ok || garbled, ..Default::default() };
                 let is_pase = op["op"] == "Pase";
                 let start = json!({"ev": "Start", "i": i, "tag": tagc, "kind": if is_pase { "pase" } else { "case" }, "pass_ok": pass_ok, "cut": op["cut"], "garbled": garbled,
